@@ -94,7 +94,7 @@ static sexp_sint_t ts_on_instr(sexp ctx, unsigned char *ip, sexp_sint_t fuel) {
   /* wall-clock budget per call (checked every 256 instructions): a few instructions on huge operands can be very slow */
   if (vh_budget && vh_time_budget_ns && (vh_instrs & 255) == 255) {
     struct timespec ts;
-    clock_gettime(CLOCK_MONOTONIC, &ts);
+    clock_gettime(CLOCK_PROCESS_CPUTIME_ID, &ts);   /* CPU time: independent of machine load */
     if ((long long)ts.tv_sec * 1000000000LL + ts.tv_nsec > vh_time_deadline_ns) vh_instrs = vh_budget;
   }
   /* instruction budget (per top-level form), delivered through the interrupt path */
